@@ -15,7 +15,7 @@ import numpy as np
 
 from . import katoms
 from .tlcrun import run_tlc, tla_string_to_json, MachineryError
-from .common import Outcome, shard_validate, seed
+from .common import time_limit, Outcome, shard_validate, seed
 
 # (scale in Angstrom per lattice unit, atol): atol/scale <= 1/32 lattice units (margin proven in MC_Find's ASSUMEs)
 TOL_CLASSES = [(1.6, 0.05), (3.2, 0.1), (1.0, 0.02), (2.0, 0.05), (0.4, 0.1)]   # the last one (tol = 1/4 unit) only for P26dome, see MC_Find.Dome
@@ -259,8 +259,9 @@ def run_find(crystal, v):
                 kw = {k: (x if v["rseed"] % 2 == 0 else np.int64(x)) for k, x in zip(("axisp1_idx", "axisp2_idx", "opoint_idx"), v["hints"]) if x is not None}
             if v.get("prior") is not None and v["dims"] is None:
                 _search_in_prior_state(st, pt, info, v["prior"], kw)
-            ans = find_pattern_in_structure(st, pt, atol=info["atol"], return_positions_and_quats=True, **kw)
-            plain = find_pattern_in_structure(st, pt, atol=info["atol"], **kw) if v["rseed"] == 0 else None
+            with time_limit(180):
+                ans = find_pattern_in_structure(st, pt, atol=info["atol"], return_positions_and_quats=True, **kw)
+                plain = find_pattern_in_structure(st, pt, atol=info["atol"], **kw) if v["rseed"] == 0 else None
         ev["ans"] = project_answer(st, pt, info, ans, orig)
         if plain is not None and sorted(sorted(t) for t in plain) != sorted(sorted(int(i) for i in t) for t in ans[0]):
             ev["exc"] = "plain-call-differs-from-call-with-positions"
@@ -292,7 +293,8 @@ def _search_in_prior_state(st, pt, info, prior, kw):
             st.positions = moved
             st.atom_types = T[p2].copy()
     try:
-        find_pattern_in_structure(st, pt, atol=info["atol"], **kw)
+        with time_limit(180):
+            find_pattern_in_structure(st, pt, atol=info["atol"], **kw)
     except Exception:
         pass
     if mode == "translate":
